@@ -10,6 +10,8 @@ tables of strings but *code*: every test, every arithmetic expression, every `ra
   DataView._read_data/_write_data   what an invalid view does, the test on `sl`, the callees
   DataArray._read_data              the single-value rule (`if not len(data.shape): data.shape = (1,)`)
   DataArray.get_slice               the two rank guards and the window `slice(p, p + e)`
+  DataArray._get_slice_bydim        (shape only) its statements as normalised source lines, and the default `mode`
+                                    of SampledDimension/RangeDimension/SetDimension.index_of (nixio/dimensions.py)
 
 is translated into a Lean term over `Int` (Python's int), `Bool`, `List Ix`, `Except Err _` using the vocabulary of
 `NixModel/Pure/ViewGen.lean`.  `Lemmas/C06Gen.lean` proves the generated definitions equal, for all inputs, to the
@@ -629,6 +631,74 @@ def gen_get_slice(fn):
         "def getSliceOtherModes : List String := [" + ", ".join(lean_str(s) for s in rest) + "]", ""])
 
 
+def _flat(stmts, depth=0):
+    """statements as normalised source lines, nesting shown by indentation (compound statements by their headers)"""
+    out = []
+    pad = "  " * depth
+    for st in stmts:
+        if _is_doc(st):
+            continue
+        if isinstance(st, ast.If):
+            node, kw = st, "if"
+            while True:
+                out.append("%s%s %s:" % (pad, kw, _u(node.test)))
+                out += _flat(node.body, depth + 1)
+                if len(node.orelse) == 1 and isinstance(node.orelse[0], ast.If):
+                    node, kw = node.orelse[0], "elif"
+                    continue
+                if node.orelse:
+                    out.append(pad + "else:")
+                    out += _flat(node.orelse, depth + 1)
+                break
+        elif isinstance(st, ast.Try):
+            out.append(pad + "try:")
+            out += _flat(st.body, depth + 1)
+            for h in st.handlers:
+                out.append("%sexcept %s:" % (pad, _u(h.type) if h.type is not None else ""))
+                out += _flat(h.body, depth + 1)
+            if st.orelse:
+                out.append(pad + "else:")
+                out += _flat(st.orelse, depth + 1)
+            if st.finalbody:
+                out.append(pad + "finally:")
+                out += _flat(st.finalbody, depth + 1)
+        elif isinstance(st, ast.For):
+            out.append("%sfor %s in %s:" % (pad, _u(st.target), _u(st.iter)))
+            out += _flat(st.body, depth + 1)
+        elif isinstance(st, ast.Raise):
+            exc = st.exc
+            out.append(pad + "raise " + (_u(exc.func) if isinstance(exc, ast.Call) else (_u(exc) if exc else "")))
+        elif isinstance(st, (ast.While, ast.With, ast.FunctionDef, ast.ClassDef)):
+            raise ExtractError("unexpected compound statement `%s`" % _u(st)[:80])
+        else:
+            out.append(pad + _u(st))
+    return out
+
+
+def gen_bydim(fn, dims_tree):
+    """DataArray._get_slice_bydim (statement shape) and the default mode of the index_of it calls without a mode"""
+    lines = _flat(_body(fn))
+    defaults = []
+    for cls in ("SampledDimension", "RangeDimension", "SetDimension"):
+        f = _method(dims_tree, cls, "index_of", "nixio/dimensions.py")
+        names = [a.arg for a in f.args.args]
+        if "mode" not in names:
+            _fail(cls + ".index_of", f, "no `mode` parameter")
+        k = names.index("mode") - (len(names) - len(f.args.defaults))
+        if k < 0:
+            _fail(cls + ".index_of", f, "`mode` has no default")
+        d = f.args.defaults[k]
+        if not (isinstance(d, ast.Attribute) and _u(d.value) == "IndexMode"):
+            _fail(cls + ".index_of", d, "unexpected default mode")
+        defaults.append((cls, d.attr))
+    return "\n".join([
+        "/-- `DataArray._get_slice_bydim`: its statements, normalised, nesting shown by indentation -/",
+        "def bydimShape : List String := [", ",\n".join("  " + lean_str(x) for x in lines) + "]",
+        "/-- default `mode` of `index_of` (what `dim.index_of(pos + ext)` uses), per descriptor class -/",
+        "def indexOfDefaultMode : List (String × String) := ["
+        + ", ".join("(%s, %s)" % (lean_str(a), lean_str(b)) for a, b in defaults) + "]", ""])
+
+
 def extract(repo):
     dv = _parse(repo, "nixio/data_view.py")
     da = _parse(repo, "nixio/data_array.py")
@@ -643,5 +713,7 @@ def extract(repo):
         gen_rw(_method(dv, "DataView", "_write_data", "nixio/data_view.py"), "write"),
         gen_single(_method(da, "DataArray", "_read_data", "nixio/data_array.py")),
         gen_get_slice(_method(da, "DataArray", "get_slice", "nixio/data_array.py")),
+        gen_bydim(_method(da, "DataArray", "_get_slice_bydim", "nixio/data_array.py"),
+                  _parse(repo, "nixio/dimensions.py")),
         "end Nix.Generated.ViewShape", ""]
     return {TARGET: "\n".join(parts)}
